@@ -32,8 +32,9 @@ RANK_FIELDS = [('Predicate', 'r_pred'), ('Constant', 'r_const'), ('Variable', 'r
 THEOREMS = ['C14_cmp_eq_iff', 'C14_eq_iff', 'C14_sort_tuple_self_delimiting', 'C14_cmp_antisym',
             'C14_lt_trans', 'C14_le_trans', 'C14_eq_trans', 'C14_cmp_total', 'C14_rank_first',
             'C14_hash_respects', 'C14_arg_eq_iff', 'C14_arg_antisym', 'C14_arg_trans',
-            'C14_arg_length_first', 'C14_arg_hash_respects', 'C14_cache_transparent_refuted',
-            'C14_cache_visible_every_maxlen', 'C14_rebuild_refuted']
+            'C14_arg_length_first', 'C14_arg_hash_respects', 'C14_cache_transparent', 'C14_cache_hit_sound',
+            'C14_rebuild', 'C14_rebuild_cached', 'C14_old_cache_transparent_refuted',
+            'C14_old_cache_visible_every_maxlen', 'C14_old_rebuild_refuted']
 K_REBUILD = 'rebuild:system-predicate'
 K_VISIBLE = 'cache-visible:system-predicate'
 
@@ -510,6 +511,8 @@ def gen_trace(rng, maxlen, n_items):
         t = small_item(rng)
         g.inst(t)
         g.rebuild(t)                                   # warm
+        if rng.random() < 0.4:                         # wrong abstract class for a cached item: TypeError, warm or not
+            g.emit('Parameter' if t[0] in 'APQOp' else 'Sentence', [ident_pv(t)], None, 'bad')
         if rng.random() < 0.3:
             g.bad()
         for _ in range(rng.choice([0, 1, maxlen, maxlen + 1])):
@@ -521,34 +524,44 @@ def gen_trace(rng, maxlen, n_items):
 
 
 def eval_trace(maxlen, ops, name='Trace'):
-    pre = [dict(cls='Constant', args=[pv_i(3), pv_i(900 + k)]) for k in range(maxlen)]
+    """Run one history on the implementation (fresh process, ITEM_CACHE_SIZE=maxlen) and on the model.
+    Returns (probe result, [(result agrees, queue agrees, cache-free model agrees)] per op)."""
+    small = maxlen <= 50
+    pre = [dict(cls='Constant', args=[pv_i(3), pv_i(900 + k)]) for k in range(maxlen)] if small else []
     data = dict(pre=[dict(cls=o['cls'], args=[json_pv(a) for a in o['args']]) for o in pre],
                 ops=[dict(cls=o['cls'], args=[json_pv(a) for a in o['args']]) for o in ops])
     res = probe_json('probe_c14.py', ['cache'], stdin=json.dumps(data), timeout=900,
                      extra_env={'ITEM_CACHE_SIZE': str(maxlen)})
     if res['maxlen'] != maxlen:
         raise MachineryError(f'ITEM_CACHE_SIZE={maxlen} not honoured: maxlen {res["maxlen"]}')
-    obs = '[' + '; '.join(f'({cq_res(o["r"])}, [{"; ".join(cq_item(x) for x in o["q"])}])' for o in res['trace']) + ']'
-    expr = (f'check_trace 40%nat {maxlen}%nat [{"; ".join(cq_op(o) for o in pre)}] '
-            f'[{"; ".join(cq_op(o) for o in ops)}] {obs}')
-    ans = coq_eval_cases('C14', HEADER, [expr], name=name, timeout=900)[0]
-    bs = bits(ans)
-    if len(bs) != 2 * len(ops):
-        raise MachineryError(f'C14 trace: {len(bs)} answers for {len(ops)} ops')
-    return res, [(bs[2 * i], bs[2 * i + 1]) for i in range(len(ops))]
+    opl = '[' + '; '.join(cq_op(o) for o in ops) + ']'
+    resl = '[' + '; '.join(cq_res(o['r']) for o in res['trace']) + ']'
+    if small:
+        obs = '[' + '; '.join(f'({cq_res(o["r"])}, [{"; ".join(cq_item(x) for x in o["q"])}])' for o in res['trace']) + ']'
+        e1 = f'check_trace 40%nat {maxlen}%nat [{"; ".join(cq_op(o) for o in pre)}] {opl} {obs}'
+    else:
+        e1 = f'check_results 40%nat {maxlen}%nat {opl} {resl}'
+    e2 = f'check_free 40%nat {opl} {resl}'
+    a1, a2 = coq_eval_cases('C14', HEADER, [e1, e2], name=name, timeout=1500)
+    b1, b2 = bits(a1), bits(a2)
+    if len(b2) != len(ops) or len(b1) != (2 if small else 1) * len(ops):
+        raise MachineryError(f'C14 trace: {len(b1)}/{len(b2)} answers for {len(ops)} ops')
+    if small:
+        return res, [(b1[2 * i], b1[2 * i + 1], b2[i]) for i in range(len(ops))]
+    return res, [(b1[i], True, b2[i]) for i in range(len(ops))]
 
 
 def judge_trace(chk: Check, maxlen, ops, res, agree) -> None:
     """Classify one executed history by the PROPERTY first, by the model second."""
     seen = {}
     diverged = False
-    for k, (op, o, (r_ok, q_ok)) in enumerate(zip(ops, res['trace'], agree)):
+    for k, (op, o, (r_ok, q_ok, f_ok)) in enumerate(zip(ops, res['trace'], agree)):
         r = o['r']
         t = op['intended']
         prefix = dict(kind='c14_trace', maxlen=maxlen, ops=ops[:k + 1])
         key = json.dumps([op['cls'], [json_pv(a) for a in op['args']]], sort_keys=True)
         chk.count('cache-op', op['form'])
-        if t is not None and op['form'] in ('spec', 'ident', 'sysname', 'parts', 'coords'):
+        if t is not None and op['form'] in ('spec', 'ident', 'sysname', 'syskey', 'parts', 'coords'):
             if r != t:
                 kk = K_REBUILD if op['sys'] else f'rebuild:{op["form"]}:{CLSNAME[t[0]]}'
                 chk.violation(kk, f'{op["cls"]}({op["form"]} of {json.dumps(t)[:160]}) returns {json.dumps(r)[:120]} '
@@ -560,13 +573,14 @@ def judge_trace(chk: Check, maxlen, ops, res, agree) -> None:
                           f'{json.dumps(seen[key][1])[:80]} at step {seen[key][0]} and {json.dumps(r)[:80]} at step {k} '
                           f'(ITEM_CACHE_SIZE={maxlen})', prefix, found_input=True)
         seen.setdefault(key, (k, r))
+        if not f_ok and not isinstance(r, dict) or (not f_ok and r.get('err') in ('TypeError', 'ValueError')):
+            chk.violation(f'cache-free-model:{op["cls"]}:{op["form"]}',
+                          f'result of {op["cls"]}({op["form"]}) at step {k} is {json.dumps(r)[:120]}, the cache-free '
+                          f'construction of the model gives another result (ITEM_CACHE_SIZE={maxlen})', prefix,
+                          found_input=True)
         if diverged:
             continue
         if not r_ok:
-            if t is not None and r == t:
-                diverged = True          # implementation satisfies the property where the model (of the
-                chk.count('cache-op', 'benign-divergence')   # unrepaired code) predicts an error: not a violation
-                continue
             chk.violation(f'cache-model:result:{op["cls"]}:{op["form"]}',
                           f'result of {op["cls"]}({op["form"]}) at step {k} is {json.dumps(r)[:120]}; the state-machine '
                           f'model of metacall predicts another outcome (ITEM_CACHE_SIZE={maxlen})', prefix, found_input=True)
@@ -596,6 +610,17 @@ def witness_ops(maxlen):
     g.emit('Sentence', [ident_pv(s)], s, 'ident')
     g.emit('Predicated', spec_pv(s), s, 'spec')
     g.emit('LexicalAbc', [ident_pv(['p', *L.IDENTITY])], ['p', *L.IDENTITY], 'ident')
+    # every lookup key of a system predicate: spec, bicoords, (name,), ident, as one tuple or as arguments
+    idn, exi = ['p', *L.IDENTITY], ['p', *L.EXISTENCE]
+    g.emit('Predicate', spec_pv(idn), idn, 'spec')
+    g.emit('Predicate', [pv_t(spec_pv(exi))], exi, 'spec')
+    g.emit('Predicate', [pv_i(-1), pv_i(0)], idn, 'syskey')
+    g.emit('Predicate', [pv_t([pv_i(-2), pv_i(0)])], exi, 'syskey')
+    g.emit('Predicate', [pv_t([dict(s='Existence')])], exi, 'syskey')
+    g.emit('Predicate', [ident_pv(idn)], idn, 'syskey')
+    g.emit('Predicate', [pv_i(-1), pv_i(0), pv_i(3)], None, 'bad')
+    g.emit('Predicate', [pv_i(-3), pv_i(0), pv_i(1)], None, 'bad')
+    g.emit('Predicate', [pv_i(-1), pv_i(0), pv_i(2), dict(s='Identity')], None, 'bad')
     return g.ops
 
 
@@ -628,16 +653,10 @@ def run(args) -> int:
     else:
         chk.notes['compare_skipped'] = 'tables not expressible / side conditions false'
     run_immut(chk, rng, 150 if thorough else 40)
-    # the model's minimal witness, replayed on the implementation
-    for ml in ([1, 2, 3, 5, 1000] if thorough else [1, 3, 1000]):
+    # the rebuild / eviction scenario of the (repaired) defect, small and default cache sizes
+    for ml in [1, 2, 3, 5, 1000]:
         ops = witness_ops(ml)
-        if ml <= 5:
-            res, agree = eval_trace(ml, ops, name=f'Wit{ml}_')
-        else:                          # default size: implementation only (the model run would be slow)
-            pre = []
-            data = dict(pre=pre, ops=[dict(cls=o['cls'], args=[json_pv(a) for a in o['args']]) for o in ops])
-            res = probe_json('probe_c14.py', ['cache'], stdin=json.dumps(data), extra_env={'ITEM_CACHE_SIZE': str(ml)})
-            agree = [(True, True)] * len(ops)
+        res, agree = eval_trace(ml, ops, name=f'Wit{ml}_')
         judge_trace(chk, ml, ops, res, agree)
     for rnd in range(40 if thorough else 8):
         ml = [1, 2, 3, 5][rnd % 4]
@@ -649,13 +668,16 @@ def run(args) -> int:
                        'the cache queue); tools/lexsyn.py + c14.py rendering of items / argument values as Gallina terms')
     chk.notes['explanation'] = (
         'Equality/order/hash theorems are proved for every well-formed item and argument, relative to tab_ok of the '
-        'tables regenerated from /repo (kernel-decided each run). cache_transparent and rebuild are REFUTED by the '
-        'faithful model (Props/C14.v: C14_cache_transparent_refuted, C14_cache_visible_every_maxlen, '
-        'C14_rebuild_refuted); the witness history is replayed on the implementation with ITEM_CACHE_SIZE in '
-        '{1,3,1000} (thorough: 1,2,3,5,1000) and reported as known finding while the implementation still fails. '
-        'Immutability / copy / pickle are correspondence-only (Gallina values are immutable). Writing a slot that has '
-        'never been assigned (lazy caches such as _constants, enum bookkeeping slots of Predicate) is accepted by '
-        'LexicalAbc.__setattr__ by design and is listed under unset_slots_accepting_a_first_write, not reported.')
+        'tables regenerated from /repo (kernel-decided each run). The construction cache (metacall + DequeCache, as '
+        'repaired in /repo 581cf1c) is proved transparent for every maxlen, history and call, and every well-formed '
+        'item is proved to rebuild from spec and ident (Props/C14.v: C14_cache_transparent, C14_cache_hit_sound, '
+        'C14_rebuild, C14_rebuild_cached); the same statements are refuted for the model of the code before the '
+        'repair (C14_old_*), so a regression is reported as VIOLATION: the rebuild / eviction scenario is replayed on '
+        'the implementation with ITEM_CACHE_SIZE in {1,2,3,5,1000} and must agree with the model (result, queue, and '
+        'the cache-free model result of every call), as must random histories with sizes 1,2,3,5. Immutability / copy '
+        '/ pickle are correspondence-only (Gallina values are immutable). Writing a slot that has never been assigned '
+        '(lazy caches such as _constants, enum bookkeeping slots of Predicate) is accepted by LexicalAbc.__setattr__ '
+        'by design and is listed under unset_slots_accepting_a_first_write, not reported.')
     return chk.finish()
 
 
@@ -673,12 +695,7 @@ def replay(path: str) -> int:
         run_immut(chk, None, 0, data=rep['data'])
     elif kind == 'c14_trace':
         ml, ops = rep['maxlen'], rep['ops']
-        if ml <= 50:
-            res, agree = eval_trace(ml, ops, name='Replay')
-        else:
-            data = dict(pre=[], ops=[dict(cls=o['cls'], args=[json_pv(a) for a in o['args']]) for o in ops])
-            res = probe_json('probe_c14.py', ['cache'], stdin=json.dumps(data), extra_env={'ITEM_CACHE_SIZE': str(ml)})
-            agree = [(True, True)] * len(ops)
+        res, agree = eval_trace(ml, ops, name='Replay')
         judge_trace(chk, ml, ops, res, agree)
     hits = [f for f in chk.findings if f['key'] == rep.get('key')] or chk.findings
     print(f'replay: kind={kind} -> {len(hits)} finding(s) reproduced')
